@@ -514,8 +514,13 @@ func crossSchemeHistory(seed uint64, out []map[string]string, first int) {
 	for k := 0; k < 60; k++ {
 		a, b := cands[r.IntN(len(cands))], cands[r.IntN(len(cands))]
 		body := gen.Pick(r, ">=", ">", "=", "!=") + a + "|" + gen.Pick(r, "<", "<=", "!=", ">=") + b
-		if r.IntN(3) == 0 {
+		switch r.IntN(3) {
+		case 0:
 			body += "|" + gen.Pick(r, ">=", "<", "!=") + cands[r.IntN(len(cands))]
+		case 1: // advisory-style long ranges: 4..8 constraints (size-dependent paths: memo tables, pre-sorted fast paths)
+			for x := 2 + r.IntN(5); x > 0; x-- {
+				body += "|" + gen.Pick(r, ">=", "<", "!=", "<=", ">") + cands[r.IntN(len(cands))]
+			}
 		}
 		probes := []string{cands[r.IntN(len(cands))], cands[r.IntN(len(cands))], "3.0.0", "2.0.0", "0.5"}
 		for _, sc := range Schemes {
